@@ -456,4 +456,133 @@ Proof.
     apply (Permutation_trans (l' := [1; 2; 3])); [apply perm_swap|]. apply Permutation_refl.
   - change (Permutation [3; 2; 1; 0] [0; 1; 2; 3]).
     apply Permutation_sym. change [3; 2; 1; 0] with (rev [0; 1; 2; 3]). apply Permutation_rev.
+
+(* ---- the grid state components: the complete reset of a smart simulation -------------------------
+   Grid/FullReset.v: SmartGridWorldSimulation.reset = PositionState (the placement model of C13),
+   HealthState, AmmoState and OrientationState, in any iteration order of the component set, applied
+   to the state the previous episode left behind; draws are oracle streams.  `statics cfg g`: g is a
+   state of configuration cfg (grid size, overlap table, per agent encoding / blocking / which
+   agents have ammunition and orientation at all); everything else in g is arbitrary. *)
+From Abm Require Import Grid.Overlap Grid.Grid Grid.Attack Grid.BattleSim Grid.FullReset Grid.BattleFull
+  Proofs.Grid_proofs Proofs.FullReset_proofs Proofs.BattleFull_proofs.
+Open Scope Z_scope.
+
+(* whatever the previous episode did to health, ammunition, orientation, positions and cells:
+   the outcome of the reset (the new state, or that it raises) depends on configuration and draws
+   only *)
+Theorem C08_full_reset_indep :
+  forall cfg orc g1 g2, order_complete cfg = true -> statics cfg g1 -> statics cfg g2 ->
+  full_reset cfg orc g1 = full_reset cfg orc g2.
+Proof. exact full_reset_indep. Qed.
+Print Assumptions C08_full_reset_indep.
+
+(* a reset that does not raise: the grid invariant of C03 holds; every agent is active with health
+   in (0,1], the declared value or the drawn one; ammunition is the declared one (negative -> 0);
+   orientation is the declared one or a drawn one in 1..4; the position is the declared one or a
+   cell of the grid (C13: under no_overlap_at_reset a freely placed agent is alone on it); every
+   agent stands in exactly the cell of its position, and the cells hold nothing but the agents *)
+Theorem C08_full_reset_fresh :
+  forall cfg orc g s,
+  wf_fcfg cfg = true -> statics cfg g -> Forall (fun u => 0 < u) (fo_unif orc) ->
+  full_reset cfg orc g = Some s ->
+  ginv s /\ statics cfg s /\
+  (forall i fa, nth_error (fc_agents cfg) i = Some fa ->
+     exists a p, agent s i = Some a /\ a_active a = true /\ 0 < a_health a <= HD /\
+       (forall h, fa_health fa = Some h -> a_health a = h) /\
+       (fa_health fa = None -> In (a_health a) (fo_unif orc)) /\
+       a_ammo a = option_map (Z.max 0) (fa_ammo fa) /\
+       match fa_orient fa with
+       | None => a_orient a = None
+       | Some io => exists o, a_orient a = Some o /\ 1 <= o <= 4 /\
+                    (forall o', io = Some o' -> o = o') /\ (io = None -> In o (fo_randint orc))
+       end /\
+       a_pos a = Some p /\ inside s p = true /\ (forall q, fa_pos fa = Some q -> p = q) /\
+       (forall q, In i (cell_get (g_cells s) q) <-> q = p) /\
+       (fc_noov cfg = true -> fa_pos fa = None -> cell_get (g_cells s) p = [i])) /\
+  (forall q i, In i (cell_get (g_cells s) q) -> (i < length (fc_agents cfg))%nat) /\
+  (forall q, NoDup (cell_get (g_cells s) q)).
+Proof. exact full_reset_fresh. Qed.
+Print Assumptions C08_full_reset_fresh.
+
+(* the executable checker (dispatch 2202) accepts the model's outcome from every previous state *)
+Theorem chk_full_reset_model :
+  forall cfg orc g, wf_fcfg cfg = true -> statics cfg g -> Forall (fun u => 0 < u) (fo_unif orc) ->
+  chk_full_reset cfg orc (full_reset cfg orc g) = true.
+Proof. exact FullReset_proofs.chk_full_reset_model. Qed.
+Print Assumptions chk_full_reset_model.
+
+(* every state a manager history reaches is a state of the configuration *)
+Theorem C08_battle_statics_reachable :
+  forall cf k s0 h, order_complete (bf_states cf) = true ->
+  statics (bf_states cf) (bs_grid (bf_core s0)) ->
+  statics (bf_states cf) (bs_grid (bf_core (m_sim (snd (run (battle_full_sim cf) k (init s0) h))))).
+Proof. exact (fun cf k s0 h Ho Hs => bf_run_inv cf Ho k h (init s0) Hs). Qed.
+Print Assumptions C08_battle_statics_reachable.
+
+(* the end-to-end simulation with its reset computed (Grid/BattleFull.v): for every configuration
+   with the four state components, all-step and turn-based manager, new object s0 (any draw
+   streams), history h and follow-up calls cs: once the used object's draw streams are those of
+   the new one (reseed: seeding the generators before the follow-up reset), the follow-up reset
+   and everything after it answer as on the new object.  The two side conditions: the follow-up
+   reset does not raise on the new object, and the history did not leave the model's domain
+   differently (the flag) *)
+Theorem C08_battle_used_vs_fresh :
+  forall cf k s0 h cs,
+  k = MAll \/ k = MTurn -> bc_agents (bf_battle cf) <> [] ->
+  order_complete (bf_states cf) = true ->
+  statics (bf_states cf) (bs_grid (bf_core s0)) -> next_reset_ok cf s0 = true ->
+  let used := snd (run (battle_full_sim cf) k (init s0) h) in
+  bs_bad (bf_core (m_sim used)) = bs_bad (bf_core s0) ->
+  fst (run (battle_full_sim cf) k (reseed_m used s0) (CReset :: cs)) =
+  fst (run (battle_full_sim cf) k (init s0) (CReset :: cs)).
+Proof. exact battle_used_vs_fresh. Qed.
+Print Assumptions C08_battle_used_vs_fresh.
+
+(* non-vacuity: 3x3 grid; agent 0 (declared everything, 3 rounds), agent 1 (health and orientation
+   drawn), agent 2 (placed at random, no orientation); component order Orientation, Position,
+   Ammo, Health.  In the history agent 0 shoots agent 1 dead (one round spent) and agent 2 moves *)
+Definition fr_fa (p : option cell) (h am : option Z) (o : option (option Z)) : fagent :=
+  mkFa 1 false p h am o.
+Definition fr_fc : fcfg :=
+  mkFc 3 3 [] [fr_fa (Some (1, 1)) (Some HD) (Some 3) (Some (Some 2));
+               fr_fa (Some (1, 2)) None None (Some None);
+               fr_fa None (Some 524288) (Some 1) None] false [SOrient; SPos; SAmmo; SHealth].
+Definition fr_b : bagent :=
+  {| b_att := {| c_range := 1; c_strength := HD; c_accuracy := HD; c_simul := 1; c_mapping := [1];
+                 c_stacked := false |}; b_view := 1 |}.
+Definition fr_cf : bfcfg :=
+  {| bf_battle := {| bc_agents := [fr_b; fr_b; fr_b]; bc_self := true; bc_oneteam := false |};
+     bf_states := fr_fc |}.
+Definition fr_orc : foracle := mkFo [-1; -1; 0] [786432] [4].
+Definition fr_s0 : bfstate :=
+  bf_init fr_cf [fr_orc; fr_orc; fr_orc]
+          {| o_unif := [0; 0; 0; 0]; o_choice := [[1%nat]; [2%nat]] |} (repeat 1 200).
+Definition fr_acts : list (nat * bact) :=
+  [(0%nat, {| ba_move := (0, 0); ba_attack := 1 |});
+   (1%nat, {| ba_move := (0, 0); ba_attack := 0 |});
+   (2%nat, {| ba_move := (0, 1); ba_attack := 0 |})].
+Definition fr_h : list (call bact) := [CReset; CStep fr_acts fr_acts].
+Definition fr_cs : list (call bact) := [CStep fr_acts fr_acts].
+
+Example C08_battle_nonvacuous :
+  let used := snd (run (battle_full_sim fr_cf) MAll (init fr_s0) fr_h) in
+  let g := bs_grid (bf_core (m_sim used)) in
+  wf_fcfg fr_fc = true /\ statics fr_fc (bs_grid (bf_core fr_s0)) /\ next_reset_ok fr_cf fr_s0 = true /\
+  bs_bad (bf_core (m_sim used)) = false /\
+  option_map a_active (agent g 1) = Some false /\ option_map a_ammo (agent g 0) = Some (Some 2) /\
+  option_map a_pos (agent g 2) = Some (Some (0, 1)) /\ cell_get (g_cells g) (1, 2) = [] /\
+  fst (run (battle_full_sim fr_cf) MAll (reseed_m used fr_s0) (CReset :: fr_cs)) =
+  fst (run (battle_full_sim fr_cf) MAll (init fr_s0) (CReset :: fr_cs)) /\
+  length (fst (run (battle_full_sim fr_cf) MAll (reseed_m used fr_s0) (CReset :: fr_cs))) = 2%nat /\
+  (* after the reset every agent is back: the state equals the new object's after its reset *)
+  option_map (fun s => map (fun a => (a_pos a, a_health a, a_ammo a, a_orient a)) (g_agents s))
+             (full_reset fr_fc fr_orc g) =
+  Some [(Some (1, 1), HD, Some 3, Some 2); (Some (1, 2), 786432, None, Some 4);
+        (Some (0, 0), 524288, Some 1, None)] /\
+  (* without the reset the follow-up differs *)
+  fst (run (battle_full_sim fr_cf) MAll (reseed_m used fr_s0) fr_cs) <>
+  fst (run (battle_full_sim fr_cf) MAll (init fr_s0) (CReset :: fr_cs)).
+Proof.
+  cbv zeta. split; [vm_compute; reflexivity|]. split; [apply blank_statics|].
+  repeat split; try (vm_compute; reflexivity). vm_compute. discriminate.
 Qed.
